@@ -8,6 +8,8 @@ import Wbxml.Lemmas.XmlPrint
 import Wbxml.Lemmas.XmlNs
 import Wbxml.Lemmas.Ident
 import Wbxml.Lemmas.XmlSpecDoc
+import Wbxml.Lemmas.XmlSpecStrip
+import Wbxml.Lemmas.XmlSpecIndent
 import Wbxml.Gen.Tables
 namespace Wbxml.Props.C05
 open Wbxml Wbxml.Model Wbxml.Spec Wbxml.Lemmas.XmlPrint Wbxml.Lemmas.XmlNs
@@ -796,15 +798,16 @@ theorem text_view_canonical (c : XCfg) (hg : c.gen = 2) (cur : Option TagRow) (s
   | some r => simp [h r rfl]
 
 open Wbxml.Lemmas.XmlSpec Wbxml.Lemmas.EncW in
-/-- **Character data, compact generation**: with white space kept, as in canonical generation (exact:
+/-- **Character data, compact and indented generation**: with white space kept, as in canonical generation (exact:
     a CR is written `&#13;`, everything else literally, and nothing the reader normalises is left);
     otherwise a text node of white space only contributes nothing and any other is stripped of leading
     and trailing blanks first (`xml_encode_text`) — not in a binary-flagged element. -/
-theorem text_view_compact (c : XCfg) (hg : c.gen = 0) (cur : Option TagRow) (s : Bytes) (hb : isBinaryTag cur = false) :
+theorem text_view_compact (c : XCfg) (hg : c.gen = 0 ∨ c.gen = 1) (cur : Option TagRow) (s : Bytes) (hb : isBinaryTag cur = false) :
     (c.ignoreEmpty = false → c.removeBlanks = false → vText c cur s = textStr c.lang.id cur s) ∧
     (c.ignoreEmpty = true → c.removeBlanks = true →
       vText c cur s = if s.all isSpaceC then [] else textStr c.lang.id cur (stripBlanks s)) := by
-  refine ⟨fun h1 h2 => by simp [vText, hg, hb, h1, h2], fun h1 h2 => by simp [vText, hg, hb, h1, h2]⟩
+  rcases hg with hg | hg <;>
+    exact ⟨fun h1 h2 => by simp [vText, hg, hb, h1, h2], fun h1 h2 => by simp [vText, hg, hb, h1, h2]⟩
 
 open Wbxml.Lemmas.XmlSpec in
 /-- **CDATA nodes contribute their text**; it is written as it is, so a reader applies XML's line-end
@@ -818,6 +821,57 @@ theorem cdata_view (s : Bytes) (h : ∀ b ∈ s, b ≠ 13) : eolNorm s = s := by
     simp only [ha, Bool.false_eq_true, ↓reduceIte, ih (fun b hb => h b (List.mem_cons_of_mem _ hb))]
 
 example : Wbxml.Lemmas.XmlSpec.eolNorm b!"a\r\nb\rc\n" = b!"a\nb\nc\n" := by decide
+
+
+/-! ### Indented generation (and every other mode): the same document up to the white space added
+
+In indented generation the printer writes line feeds and runs of spaces around markup (after the
+header lines, before start tags, after `>` and before `</` of an element that has element children,
+after end tags). A reader sees them as character data. `sqI` / `sqL` delete the blanks (space, line
+feed) from all character data of an item and drop text items that become empty
+(`squash_meaning`); the two theorems below say that the output is well-formed and that its root,
+squashed, is the squashed view of the tree — the same elements, attributes and non-blank character
+data in the same order. For `gen = 1` the view `xview cfg t` treats text as compact generation does
+(`text_view_compact`) and attribute values as `attNorm false`. -/
+
+open Wbxml.Lemmas.XmlSpec Wbxml.Spec.Xml Wbxml.Lemmas.EncW in
+/-- **(c) Indented generation, any indentation width — in fact any generation mode: the output is a
+    well-formed XML document.** -/
+theorem indent_output_well_formed_partial (cfg : W2XCfg) (fuel : Nat) (t : Tree) (xml : Bytes)
+    (hrep : xmlRepresentable cfg t = true) (h : treeToXml cfg fuel t = .ok xml) :
+    ∃ d, Spec.Xml.read xml = some d := by
+  obtain ⟨lang, r, _, hr, _⟩ := treeToXml_read_ws cfg fuel t xml hrep h
+  exact ⟨_, hr⟩
+
+open Wbxml.Lemmas.XmlSpec Wbxml.Spec.Xml Wbxml.Lemmas.EncW in
+/-- **(c) … with the language's DOCTYPE, whose root element is the tree's view up to the blanks the
+    printer adds**: equal after deleting space and line feed from character data. -/
+theorem indent_output_denotes_tree_partial (cfg : W2XCfg) (fuel : Nat) (t : Tree) (xml : Bytes)
+    (hrep : xmlRepresentable cfg t = true) (h : treeToXml cfg fuel t = .ok xml) (lang : Lang) (hl : t.lang = some lang) :
+    ∃ r, Spec.Xml.read xml = some
+        { version := some b!"1.0",
+          doctype := some { name := lang.pub.root.getD [],
+                            pubid := (match lang.pub.xmlId with
+                              | some p => if p.isEmpty then none else some p
+                              | none => none),
+                            sysid := some (lang.pub.dtd.getD []) },
+          root := r } ∧
+      sqI r = sqI (xview cfg t) := by
+  obtain ⟨lang', r, hl', hr, hs⟩ := treeToXml_read_ws cfg fuel t xml hrep h
+  rw [hl] at hl'
+  injection hl' with hl'
+  subst hl'
+  exact ⟨r, hr, hs⟩
+
+open Wbxml.Lemmas.XmlSpec Wbxml.Spec.Xml Wbxml.Lemmas.EncW in
+/-- What squashing does: blanks (space, line feed) are deleted from character data, a text item
+    that becomes empty is dropped, elements keep name and attributes and have their content squashed. -/
+theorem squash_meaning (s : Bytes) (n : Bytes) (a : List (Bytes × Bytes)) (k r : List XItem) :
+    nb s = s.filter (fun b => !(b == 32 || b == 10)) ∧
+    sqI (.text s) = .text (nb s) ∧ sqI (.elem n a k) = .elem n a (sqL k) ∧
+    sqL [] = [] ∧ sqL (.text s :: r) = (if (nb s).isEmpty then sqL r else .text (nb s) :: sqL r) ∧
+    sqL (.elem n a k :: r) = .elem n a (sqL k) :: sqL r := by
+  refine ⟨rfl, by simp [sqI], by simp [sqI], by simp [sqL], by simp [sqL], by simp [sqL]⟩
 
 /-! ### The precondition -/
 
@@ -870,6 +924,14 @@ theorem representable_nodes (c : XCfg) (p : Parent) (cur : Option TagRow) :
   refine ⟨fun _ _ _ => by simp [okNode], fun _ => by simp [okNode], by simp [okNode], fun _ => by simp [okNode],
     fun _ _ _ => by simp [okNode], fun _ _ => by simp [okNode], fun l _ => by cases l <;> simp [okNode],
     by simp [okNodes], fun _ _ => by simp [okNodes], fun _ _ => rfl⟩
+
+open Wbxml.Lemmas.XmlSpec Wbxml.Spec.Xml in
+/-- The condition on a text node can be checked on the node's own octets: if they are UTF-8 for XML
+    characters, so is what `xml_encode_text` writes for the node (after stripping blanks, rewriting a
+    SyncML media type, or taking the base64 form), wherever the node stands. -/
+theorem text_precondition_on_octets (c : XCfg) (p : Parent) (cur : Option TagRow) (s : Bytes)
+    (h : xmlChars s = true) : okNode c p cur (.text s) = true ∧ xmlChars (vText c cur s) = true :=
+  ⟨okNode_text_of_chars c p cur s h, xmlChars_vText c cur s h⟩
 
 open Wbxml.Lemmas.XmlSpec in
 /-- **Every registered language satisfies the language part of the precondition** (complete table):
@@ -950,6 +1012,14 @@ theorem precondition_needed :
     bad (wfCfg 0) (wfTree { wfLang with pub := { wfLang.pub with root := none } } (lit b!"a" [] [])) = true ∧
     bad (wfCfg 0) (wfTree { wfLang with ns := some [{ ns := b!"a\"b", page := 0 }] } (.elt wfItem [] [])) = true ∧
     bad (wfCfg 0) (wfTree { wfLang with pub := { wfLang.pub with xmlId := some b!"a{b" } } (lit b!"a" [] [])) = true := by
+  decide +kernel
+
+
+/-- Indented generation of the non-vacuity tree (width 2): accepted, and the text item between `lit` and
+    the end tag is the CDATA text, the two-octet character and the line feed added before `</item>`. -/
+example : (match treeToXml { wfCfg 1 with indent := 2 } 10 wfGood with
+    | .ok xml => xml == b!"<?xml version=\"1.0\"?>\n<!DOCTYPE doc PUBLIC \"-//X//DTD T 1.0//EN\" \"http://x/t.dtd\">\n<item xmlns=\"urn:p0\" id=\"a&lt;b\t\">\nx&amp;y  <lit/>\n<![CDATA[c]]]]><![CDATA[>d\r\ne]]>" ++ [0xC3, 0xA9] ++ b!"\n</item>\n"
+    | .error _ => false) = true ∧ rejected { wfCfg 1 with indent := 2 } wfGood = false := by
   decide +kernel
 
 
